@@ -23,6 +23,30 @@ fn outcome(r: sourcemap::Result<DecodedMap>) -> Value {
     }
 }
 
+/// views with a HISTORY: the question asked after the line index was built completely / partly, after slices, on a
+/// clone of a used view, and twice in a row -- the answer is a function of the text alone
+fn views_with_history(text: &str) -> Vec<Value> {
+    let text = text.to_string();
+
+                let mut vs = vec![];
+                let v = SourceView::new(text.clone().into());
+                let _ = v.line_count();
+                vs.push(refv(v.sourcemap_reference()));
+                vs.push(refv(v.sourcemap_reference()));
+                let v = SourceView::new(text.clone().into());
+                let _ = v.lines().count();
+                vs.push(refv(v.clone().sourcemap_reference()));
+                vs.push(refv(v.sourcemap_reference()));
+                let v = SourceView::new(text.clone().into());
+                let _ = (v.get_line(1), v.get_line_slice(0, 0, 3));
+                vs.push(refv(v.sourcemap_reference()));
+                let _ = v.get_line(u32::MAX);
+                vs.push(refv(v.sourcemap_reference()));
+                let v = SourceView::from_string(text.clone());
+                vs.push(refv(v.sourcemap_reference()));
+                vs
+}
+
 pub fn run(case: &Value, em: &mut Emitter) {
     if case["op"] == "locate" {
         let text = cps_to_string(&case["file"]);
@@ -33,7 +57,8 @@ pub fn run(case: &Value, em: &mut Emitter) {
             "reader": refv(locate_sourcemap_reference(text.as_bytes())),
             "reader_chunked": chunked,
             "slice": refv(locate_sourcemap_reference_slice(text.as_bytes())),
-            "view": refv(SourceView::new(text.clone().into()).sourcemap_reference())}));
+            "view": refv(SourceView::new(text.clone().into()).sourcemap_reference()),
+            "views": views_with_history(&text)}));
         em.emit("locate", json!({"file": case["file"]}), out);
         return;
     }
